@@ -8,6 +8,7 @@ package main
 
 import (
 	"bytes"
+	"context"
 	"crypto/sha256"
 	"encoding/base64"
 	"encoding/hex"
@@ -27,6 +28,11 @@ import (
 	"github.com/syndtr/goleveldb/leveldb"
 	"github.com/syndtr/goleveldb/leveldb/opt"
 
+	"github.com/golang/protobuf/ptypes/empty"
+	"github.com/massnetorg/mass-core/massutil"
+
+	"massnet.org/mass/api"
+	pb "massnet.org/mass/api/proto"
 	"massnet.org/mass/config"
 	"massnet.org/mass/poc/wallet/db"
 	ldb "massnet.org/mass/poc/wallet/db/ldb"
@@ -37,6 +43,15 @@ import (
 )
 
 var fast = keystore.ScryptOptions{N: 16, R: 8, P: 1}
+
+// idleMiner: the PoC miner as api.Server's wallet handlers see it (LockWallet is refused while it runs): never started
+type idleMiner struct{}
+
+func (idleMiner) Start() error                                { return nil }
+func (idleMiner) Stop() error                                 { return nil }
+func (idleMiner) Started() bool                               { return false }
+func (idleMiner) Type() string                                { return "scripted" }
+func (idleMiner) SetPayoutAddresses([]massutil.Address) error { return nil }
 
 var allPass = []string{"p1", "p2", "p3", "q1", "q2", "bad"}
 
@@ -72,6 +87,28 @@ type drv struct {
 	needles   [][]byte // secrets known to the driver: seeds, passphrases, derived private keys
 	logPath   string
 	foreign   *pocec.PrivateKey
+	api       bool     // export / import / lock / unlock / passphrase changes go through the gRPC handlers (api/wallets.go)
+	apiFiles  []string // files the export handler wrote
+}
+
+// viaAPI: the call goes through the handler.  The handlers refuse a passphrase whose length is outside 6..40 before the
+// wallet sees it (the wallet has its own, finer validation and, without keystores, none at all): such calls go to the
+// wallet directly, so that every recorded answer is the wallet's.
+func (d *drv) viaAPI(ps ...[]byte) bool {
+	if !d.api {
+		return false
+	}
+	for _, p := range ps {
+		if len(p) < api.LenPassMin || len(p) > api.LenPassMax {
+			return false
+		}
+	}
+	return true
+}
+
+// srv: the gRPC server over this wallet, as server.go wires it
+func (d *drv) srv(w *wallet) *api.Server {
+	return api.VerifServer(idleMiner{}, w.mgr, nil)
 }
 
 const passChars = "0123456789abcdefghijklmnopqrstuvwxyzABCDEFGHIJKLMNOPQRSTUVWXYZ@#$%^&"
@@ -622,6 +659,12 @@ func (d *drv) clearScan(extra [][]byte) []string {
 		hay = append(hay, b)
 		names = append(names, "export:"+f)
 	}
+	for _, f := range d.apiFiles {
+		if b, err := ioutil.ReadFile(f); err == nil {
+			hay = append(hay, b)
+			names = append(names, "exportfile:"+filepath.Base(f))
+		}
+	}
 	if d.logPath != "" {
 		if b, err := ioutil.ReadFile(d.logPath); err == nil {
 			hay = append(hay, b)
@@ -954,6 +997,8 @@ func run(sc vh.Scenario, dir string, rec *vh.Rec) {
 		}
 	}()
 	light, _ := sc.Opt["light"].(bool) // skip the heavy projections (used by large sweeps)
+	d.api, _ = sc.Opt["api"].(bool)
+	ctx := context.Background()
 	ncopy := 0
 	reoCache := map[string]interface{}{}
 	for i, st := range sc.Steps {
@@ -1093,13 +1138,24 @@ func run(sc vh.Scenario, dir string, rec *vh.Rec) {
 			case "Remark":
 				setErr(m.ChangeRemark(d.id(st.Str("s")), d.remarks[st.Str("r")]))
 			case "ChangePriv":
-				err := m.ChangePrivPassphrase(d.cand(w, st.Str("old"), rng), d.pass[st.Str("new")], &fast)
+				old := d.cand(w, st.Str("old"), rng)
+				var err error
+				if d.viaAPI(old, d.pass[st.Str("new")]) {
+					_, err = d.srv(w).ChangePrivatePass(ctx, &pb.ChangePrivatePassRequest{OldPrivpass: string(old), NewPrivpass: string(d.pass[st.Str("new")])})
+				} else {
+					err = m.ChangePrivPassphrase(old, d.pass[st.Str("new")], &fast)
+				}
 				setErr(err)
 				if err == nil && len(m.ListKeystoreNames()) > 0 {
 					w.priv = d.pass[st.Str("new")]
 				}
 			case "ChangePub":
-				err := m.ChangePubPassphrase(d.pass[st.Str("old")], d.pass[st.Str("new")], &fast)
+				var err error
+				if d.viaAPI(d.pass[st.Str("old")], d.pass[st.Str("new")]) {
+					_, err = d.srv(w).ChangePublicPass(ctx, &pb.ChangePublicPassRequest{OldPubpass: string(d.pass[st.Str("old")]), NewPubpass: string(d.pass[st.Str("new")])})
+				} else {
+					err = m.ChangePubPassphrase(d.pass[st.Str("old")], d.pass[st.Str("new")], &fast)
+				}
 				setErr(err)
 				if err == nil {
 					w.pub = st.Str("new")
@@ -1112,7 +1168,25 @@ func run(sc vh.Scenario, dir string, rec *vh.Rec) {
 				}
 			case "Export":
 				pp := d.cand(w, st.Str("p"), rng)
-				b, err := m.ExportKeystore(d.id(st.Str("s")), pp)
+				var b []byte
+				var err error
+				if d.viaAPI(pp) && len(d.id(st.Str("s"))) == api.LenWalletId {
+					// the handler answers with the keystore and writes it to <ExportPath>/keystore-<id>.json
+					xdir := filepath.Join(d.dir, "exports-"+w.name)
+					os.MkdirAll(xdir, 0o755)
+					var resp *pb.ExportKeystoreResponse
+					resp, err = d.srv(w).ExportKeystore(ctx, &pb.ExportKeystoreRequest{WalletId: d.id(st.Str("s")), Passphrase: string(pp), ExportPath: xdir})
+					if err == nil {
+						b = []byte(resp.Keystore)
+						fn := filepath.Join(xdir, "keystore-"+d.id(st.Str("s"))+".json")
+						d.apiFiles = append(d.apiFiles, fn)
+						if fb, e := ioutil.ReadFile(fn); e != nil || !bytes.Equal(fb, b) {
+							out["exportfile"] = "differs from the answer"
+						}
+					}
+				} else {
+					b, err = m.ExportKeystore(d.id(st.Str("s")), pp)
+				}
 				setErr(err)
 				if err == nil {
 					w.priv = pp
@@ -1124,7 +1198,21 @@ func run(sc vh.Scenario, dir string, rec *vh.Rec) {
 				if !ok {
 					blob = []byte("{}")
 				}
-				id, remark, err := m.ImportKeystore(blob, d.pass[st.Str("old")], d.pass[st.Str("new")])
+				var id, remark string
+				var err error
+				if d.viaAPI(d.pass[st.Str("old")]) && (len(d.pass[st.Str("new")]) == 0 || d.viaAPI(d.pass[st.Str("new")])) && !bytes.Contains(blob, []byte("\n")) {
+					// the handler reads the keystore (one line) from a file
+					fn := filepath.Join(d.dir, fmt.Sprintf("import-%d.json", i))
+					ioutil.WriteFile(fn, blob, 0o600)
+					var resp *pb.ImportKeystoreResponse
+					resp, err = d.srv(w).ImportKeystore(ctx, &pb.ImportKeystoreRequest{ImportPath: fn, OldPassphrase: string(d.pass[st.Str("old")]), NewPassphrase: string(d.pass[st.Str("new")])})
+					if err == nil {
+						id, remark = resp.WalletId, resp.Remark
+					}
+					os.Remove(fn)
+				} else {
+					id, remark, err = m.ImportKeystore(blob, d.pass[st.Str("old")], d.pass[st.Str("new")])
+				}
 				setErr(err)
 				if err == nil {
 					seed := d.fileSeed[st.Str("f")]
@@ -1139,10 +1227,22 @@ func run(sc vh.Scenario, dir string, rec *vh.Rec) {
 					}
 				}
 			case "Lock":
-				m.Lock()
+				if d.api {
+					_, err := d.srv(w).LockWallet(ctx, &empty.Empty{})
+					setErr(err)
+				} else {
+					m.Lock()
+				}
 			case "Unlock":
 				pp := d.cand(w, st.Str("p"), rng)
-				err := m.Unlock(pp)
+				var err error
+				if d.viaAPI(pp) && m.IsLocked() {
+					// (the handler answers success for an unlocked wallet without looking at the passphrase: those
+					// calls go to the wallet directly)
+					_, err = d.srv(w).UnlockWallet(ctx, &pb.UnlockWalletRequest{Passphrase: string(pp)})
+				} else {
+					err = m.Unlock(pp)
+				}
 				setErr(err)
 				if err == nil && len(m.ListKeystoreNames()) > 0 {
 					w.priv = pp
